@@ -81,13 +81,17 @@ theorem compactArrayLengthTail_eq (raw : Bytes) (n : Nat) (hn : n < 184467440737
     Gen.C10.compactArrayLengthTail (wrap64 n) (rem raw off1) off1 raw.length eI nilE
       = triple 0 nilE (fun _ => eI) (compactArrayLengthModel raw n off1) := by
   unfold Gen.C10.compactArrayLengthTail compactArrayLengthModel triple
-  have hs : sub64 (wrap64 (n : Int)) 1 = compactLen n := rfl
+  have hs : sub64 (wrap64 (n : Int)) 1 = compactLen n := by unfold sub64 compactLen; rfl
   rw [hs]
+  generalize compactLen n = L
   by_cases h : n = 0
-  · subst h; simp [wrap64]
+  · have h0 : wrap64 (n : Int) = 0 := by rw [h]; unfold wrap64; omega
+    simp only [h0, h, ↓reduceIte]
   · have h2 : ¬ wrap64 (n : Int) = 0 := by unfold wrap64; omega
-    simp only [h2, ↓reduceIte, h, true_and]
-    split <;> rfl
+    simp only [h2, h, ↓reduceIte, true_and]
+    by_cases h3 : L < 0 ∨ L > rem raw off1
+    · simp only [h3, ↓reduceIte]
+    · simp only [h3, ↓reduceIte]
 
 theorem getBoolTail_eq (b : Int) (nilE eB : Int) :
     Gen.C10.getBoolTail b nilE nilE eB = (if b = 0 then (false, nilE) else if b ≠ 1 then (false, eB) else (true, nilE)) := by
@@ -173,6 +177,7 @@ theorem varintLengthFieldCheck_eq (crcf : Bool → Bytes → Nat) (raw : Bytes) 
         | .ok _ _ _ => nilE
         | _ => eLF := by
   unfold Gen.C10.varintLengthFieldCheck pop
+  simp only []
   have : sub64 (sub64 (cur : Int) start) (fl : Int) = wrap64 ((cur : Int) - start - (fl : Int)) := by
     unfold sub64 wrap64; omega
   rw [this]
